@@ -168,4 +168,61 @@ theorem destructObject_step (rh : HookFn) (hrh : HookOK rh) (w : W) (o : Oid) :
         (Step.trans (setDead_same _ o).step (removeInteractive_step rh hrh _ o true))
     · exact Step.trans (setHeartBeat_same w o 0).step (setDead_same _ o).step
 
+
+theorem touch_same (w : W) (o : Oid) : Same w (touch w o) := by
+  cases o <;> exact ⟨rfl, rfl, rfl, rfl, rfl, rfl, rfl, rfl, rfl⟩
+
+theorem runOps_step (rh : HookFn) (hrh : HookOK rh) (self : Oid) :
+    ∀ (ops : List Op) (w : W), Step w (runOps rh self ops w).1 := by
+  intro ops
+  induction ops with
+  | nil => intro w; exact Step.refl w
+  | cons op rest ih =>
+    intro w
+    cases op with
+    | ok => exact ih w
+    | err =>
+      show Step w (errorHandler (emit w _) _)
+      exact Step.trans (emit_same _ _).step (errorHandler_step _ _)
+    | cerr =>
+      show Step w (runOps rh self rest (popCtx (caughtError (pushCtx (emit w _)) _))).1
+      exact Step.trans (emit_same _ _).step (Step.trans (Step.bracket (caughtError_step _ _)) (ih _))
+    | dest t =>
+      unfold runOps
+      simp only []
+      split
+      · have h1 : Step w (destructObject rh (emit w (.xDest self t)) t) :=
+          Step.trans (emit_same _ _).step (destructObject_step rh hrh _ t)
+        split
+        · exact h1
+        · exact Step.trans h1 (ih _)
+      · have h1 : Step w (emit w (.xDest self t)) := (emit_same _ _).step
+        split
+        · exact h1
+        · exact Step.trans h1 (ih _)
+    | destMe =>
+      show Step w (destructObject rh (emit w _) self)
+      exact Step.trans (emit_same _ _).step (destructObject_step rh hrh _ self)
+    | co d tag =>
+      show Step w (runOps rh self rest _).1
+      refine Step.trans ?_ (ih _)
+      exact Same.step ⟨rfl, rfl, rfl, rfl, rfl, rfl, rfl, rfl, rfl⟩
+    | hb n =>
+      show Step w (runOps rh self rest (setHeartBeat (emit w _) self n)).1
+      exact Step.trans (Step.trans (emit_same _ _).step (setHeartBeat_same _ _ _).step) (ih _)
+    | w s =>
+      show Step w (runOps rh self rest (addOut (touch w self) self _)).1
+      exact Step.trans (Step.trans (touch_same _ _).step (addOut_step _ _ _)) (ih _)
+    | meh m =>
+      show Step w (runOps rh self rest _).1
+      refine Step.trans ?_ (ih _)
+      exact Same.step ⟨rfl, rfl, rfl, rfl, rfl, rfl, rfl, rfl, rfl⟩
+
+/-- every hook keeps the invariant, for every nesting fuel and every script oracle -/
+theorem runHook_ok (S : Scripts) : ∀ fuel, HookOK (runHook S fuel) := by
+  intro fuel
+  induction fuel with
+  | zero => intro w o k; exact Step.refl w
+  | succ n ih => intro w o k; exact runOps_step (runHook S n) ih o (S.hook o k) w
+
 end NV.C09
